@@ -5,9 +5,13 @@
 
      XSubmit c h p a   sendBatchRequest / SendRequestAsync (a = true): entry with priority p on batchCommandsCh
      XFetch c          fetchAllPendingRequests / fetchMorePendingRequests: channel -> reqBuilder.entries
-     XBuildRound ts    buildWithLimit: the entries ts are popped (PriorityQueue.Take), cancelled ones are skipped, the
+     XBuildRound lim ts  buildWithLimit(limit): lim = None for the default (unbounded) MaxConcurrencyRequestLimit, Some l for
+                       l = available(); the entries ts are popped (PriorityQueue.Take), cancelled ones are skipped, the
                        others get the next consecutive ids; what is left behind has no high priority and no
-                       priority above a popped entry (round_ok)
+                       priority above a popped entry (round_ok); the loop only stops with entries left behind when the
+                       quota is used up: unbounded -> nothing is left, Some l -> at least l normal non-cancelled entries
+                       were popped (quota_ok; the quota is soft: a second Take may overshoot it).  Whatever is not
+                       popped STAYS in the builder for the next round.
      XClean            reqBuilder.reset -> PriorityQueue.clean: cancelled entries leave the builder
      XNoConn           reqBuilder.cancel ("no available connections"): every entry in the builder is failed
      XSendExit         batchSendLoop returns (closed, builder empty): failQueuedAsyncRequestsOnClose drains
@@ -32,7 +36,7 @@ Record sys := mkSys {
 Inductive xlabel :=
 | XSubmit (c : caller) (h : host) (p : nat) (a : bool)
 | XFetch (c : caller)
-| XBuildRound (takes : list caller)
+| XBuildRound (lim : option nat) (takes : list caller)
 | XClean
 | XNoConn
 | XSendExit
@@ -48,6 +52,13 @@ Definition round_ok (pr : caller -> nat) (queue takes : list caller) : bool :=
   nodupb takes && forallb (fun t => memb t queue) takes
   && forallb (fun r => memb r takes
                        || (Nat.ltb (pr r) high_pri && forallb (fun t => Nat.leb (pr r) (pr t)) takes)) queue.
+
+(* the quota: buildWithLimit keeps popping while count < limit and the queue is not empty *)
+Definition counted (f : caller -> entry) (pr : caller -> nat) (takes : list caller) : nat :=
+  length (filter (fun c => negb (e_canceled (f c)) && Nat.ltb (pr c) high_pri) takes).
+Definition quota_ok (lim : option nat) (f : caller -> entry) (pr : caller -> nat) (queue takes : list caller) : bool :=
+  forallb (fun r => memb r takes) queue
+  || match lim with None => false | Some l => Nat.leb l (counted f pr takes) end.
 
 Fixpoint build_labels (f : caller -> entry) (n : id) (takes : list caller) : list label :=
   match takes with
@@ -83,6 +94,9 @@ Definition remove_c (c : caller) (l : list caller) : list caller := filter (fun 
 Definition drained (x : sys) : list caller :=
   filter (fun c => asy x c && is_queued (e_st (ent (core x) c))) (chq x).
 
+Definition round_guard (x : sys) (lim : option nat) (takes : list caller) : bool :=
+  sendloop x && round_ok (pri x) (inb x) takes && quota_ok lim (ent (core x)) (pri x) (inb x) takes.
+
 Definition xstep (x : sys) (l : xlabel) : option sys :=
   match l with
   | XSubmit c h p a =>
@@ -93,8 +107,8 @@ Definition xstep (x : sys) (l : xlabel) : option sys :=
   | XFetch c =>
       if sendloop x && memb c (chq x) && negb (memb c (inb x)) && is_queued (e_st (ent (core x) c))
       then Some (mkSys (core x) (remove_c c (chq x)) (c :: inb x) (pri x) (asy x) (sendloop x)) else None
-  | XBuildRound takes =>
-      if sendloop x && round_ok (pri x) (inb x) takes then
+  | XBuildRound lim takes =>
+      if round_guard x lim takes then
         match run (core x) (build_labels (ent (core x)) (next_id (core x)) takes) with
         | Some st => Some (mkSys st (chq x) (filter (fun c => negb (memb c takes)) (inb x)) (pri x) (asy x) (sendloop x))
         | None => None
